@@ -7,6 +7,7 @@ import efreelist
 import elin
 import eevent
 import ecfg
+import edbg
 
 LEVEL = "E-LIN edge linearity over all bodies"
 
@@ -39,6 +40,10 @@ def run(ctx):
     n = efreelist.check_count_bookkeeping(ctx, F)
     efreelist.check_terminal_gc(ctx, F)
     ecfg.check_slab_data_type(ctx, F)
+    ctx.explain("E-DBG: no side effect (atomic read-modify-write, store, container mutation, assignment) is evaluated inside a "
+                "debug assertion; with debug assertions off it would not happen (225 debug-only blocks inspected).")
+    n = edbg.run(ctx, F)
+    ctx.floor("E-DBG", "debug-only blocks inspected", n, 150)
     ctx.floor("E-FREELIST.count", "node-count bookkeeping obligations", n, 3)
     ctx.explain("E-EVENT.gc-order: Manager::gc sweeps every inner-node level before the terminal table (terminals "
                 "referenced only by dead inner nodes become unreferenced during the level sweep).")
